@@ -52,6 +52,12 @@ def jobs(tier, seed):
             "two-share-bg-param": [F([S(1), R([S(1), O(1, [(2, [])])], bg=1, bgp=True)], bg=1)],
             "wip-rule3": [F([R([S(3)], tags=["wip"], bg=1)])],
         })
+    # steps that run sub-steps through context.execute_steps(): a failing sub-step fails its caller (ground-truth events)
+    js.append(Job("nested-steps", "vlib.stage1:h_stage1",
+                  {"shapes": [F([S(2), S(1)])],
+                   "opts": {"nested_steps": ["f0.i0.0", "f0.i1.0"], "nested_exceptions": True, "out_dom": {"*": [0, 2]}, "undef": False},
+                   "checks": ["verdict"]},
+                  reach=["C01.no-false-green(events)"], min_paths=20, cost=300, validate=100))
     # several scenarios of one rule below a FEATURE background (each has its own copy of the inherited steps)
     js.append(Job("seq.rule-2sc-below-feature-bg", "vlib.stage1:h_stage1",
                   {"shapes": [F([R([S(1), S(1)], bg=1)], bg=2)], "opts": {"out_dom": {"*": [0, 2]}, "undef": False}, "checks": base},
